@@ -255,13 +255,13 @@ def batch(case, wctx):
 
 def run(ctx):
     quick = ctx.tier == "quick"
-    n = 320 if quick else 10000
+    n = 320 if quick else 6000
     ctx.rule = ("histories of 2-6 (thorough 8) file operations on a file or a directory input interleaved with hash "
                 "points (shared persistent cache vs fresh cache, ~4% with one hash point in a fresh child process, 30% "
                 "with an end-to-end task run before/after); non-trivial = >= 2 hash points that saw >= 2 different "
                 "contents; distinct = distinct histories")
     cases = [{"lo": i, "hi": min(n, i + PER)} for i in range(0, n, PER)]
-    ctx.record_all(ctx.pmap("vp.props.c09:batch", cases, nproc=8 if quick else 16, timeout=200 if quick else 2400))
+    ctx.record_all(ctx.pmap("vp.props.c09:batch", cases, nproc=8 if quick else 16, timeout=600 if quick else 3000))
     ctx.assumptions = ["scratch is on tmpfs (/dev/shm): its timestamp granularity decides whether plain back-to-back "
                        "writes can share an mtime", "the fresh-cache digest of the real code is taken as the hash of "
                        "the current content"]
